@@ -1,5 +1,6 @@
 import Proofs.PrebuildChain
 import Proofs.PrebuildTyping
+import Proofs.PrebuildMech
 import PyxModel.Prebuild.Recipe
 
 /-!
@@ -39,16 +40,33 @@ theorem chains_touch_only_members (xs : List Nat) (x : Nat) (hx : x ∉ xs) :
     have := chainLoop_holder xs.reverse none l hl
     rw [he] at this; exact List.mem_reverse.mp this
 
-/-! ### subtypes (tree model) -/
+/-! ### typing
 
-/-- every supported statement's ACT_SMT ends up with exactly one R603 subtype, every value's V_VAL with exactly
-    one R801 subtype (also when the transient of a first-assigned instance variable is migrated) -/
-theorem one_subtype (ctx : Ctx) (c : TCtx) (env : Env) (s : Stmt) (hs : wfStmt ctx s = true) (e : Expr)
-    (migrates : Bool) :
-    (stmtSubtypes s).length = 1 ∧ (valSubtypes c env migrates e).length = 1 :=
-  ⟨stmtSubtypes_one ctx s hs, valSubtypes_one c env migrates e⟩
+  CONTENT-BEARING: `typed_as_oal` — the prebuilder's typing MECHANISM (`Mech.buildExpr`: values created bottom-up in
+  a growing population, the type of a compound value obtained by navigating R820 from the operand's value, the
+  class of an attribute access through the S_IRDT of the root value's type or the V_SLR root) relates the value of
+  EVERY expression, in EVERY population, to exactly `typeOf e` (the specification), gives it the subtype `kindOf e`,
+  and creates, in order, the rows of the specification walk (which the correspondence run compares with the real
+  V_VAL population).
 
-/-! ### typing: `typeOf` facts, for all contexts, environments and operand expressions -/
+  SPEC EQUATIONS (`typed_comparison` … `typed_selection_statements`, `walk_row_typed`): one-arm unfoldings of the
+  specification `typeOf` / `walkStmt`; they restate OAL's typing rules in the property's words and make the
+  specification readable against the property text — they are not counted as proofs about the mechanism. -/
+
+/-- R820 of the value the mechanism builds for `e` is `typeOf e`; its R801 subtype is `kindOf e`; the values created
+    are exactly the rows of the specification walk, appended in creation order to whatever population existed -/
+theorem typed_as_oal (c : TCtx) (env : Env) (sel : Option String) (hg : GenericFree c) (e : Expr) (p : Pop) :
+    (buildExpr c env sel e p).2.r820 (buildExpr c env sel e p).1 = typeOf c env sel e ∧
+    (buildExpr c env sel e p).2.kind (buildExpr c env sel e p).1 = kindOf c env e ∧
+    (buildExpr c env sel e p).2.vals = p.vals ++ walkExpr c env sel e :=
+  mechanism_types c env sel hg e p
+
+/-- an already typed operand is never re-typed: building further values leaves R820 of earlier ones unchanged -/
+theorem earlier_values_untouched (c : TCtx) (env : Env) (sel : Option String) (hg : GenericFree c) (e : Expr)
+    (p : Pop) (i : Nat) (hi : i < p.vals.length) :
+    (buildExpr c env sel e p).2.r820 i = p.r820 i := by
+  have h := (mechanism_types c env sel hg e p).2.2
+  simp only [Pop.r820, h, List.getElem?_append_left hi]
 
 theorem typed_comparison (c : TCtx) (env : Env) (sel : Option String) (l r : Expr) (op : String)
     (h : op ∈ compareOps) : typeOf c env sel (.bin l op r) = some "boolean" := by
@@ -93,11 +111,11 @@ theorem typed_parameter (c : TCtx) (env : Env) (sel : Option String) (n : String
 theorem typed_attribute (c : TCtx) (env : Env) (sel : Option String) (h : Expr) (a : String) (ci : ClassInfo)
     (set : Bool) (hs : h ≠ .selected) (ht : c.classOfType (typeOf c env sel h) = some (ci, set)) :
     typeOf c env sel (.field h a) = ci.attrs.lookup a := by
-  cases h <;> simp_all [typeOf]
+  cases h <;> simp_all [typeOf, attrTy, tyClass]
 
 theorem typed_selected_attribute (c : TCtx) (env : Env) (kl a : String) (ci : ClassInfo)
     (hc : c.cls kl = some ci) : typeOf c env (some kl) (.field .selected a) = ci.attrs.lookup a := by
-  simp [typeOf, hc]
+  simp [typeOf, attrTy, selClass, hc]
 
 /-- a variable read has the type recorded for the variable … -/
 theorem typed_variable (c : TCtx) (env : Env) (sel : Option String) (n : String) (v : VarInfo)
@@ -214,6 +232,8 @@ def demoT : TCtx :=
   { classes := [⟨"DOG", "inst_ref<Dog>", "inst_ref_set<Dog>", [("Age", "integer")], [("getAge", "integer")]⟩]
     funcs := [("add", "integer")], ees := [("LOG", [("level", "integer")])], enums := [("Color", ["red"])]
     consts := [], params := [("pb", "boolean")], selfKl := none }
+
+example : GenericFree demoT := rfl
 
 def demoB : Block :=
   .cons (.selFrom "any" "d" "DOG")
